@@ -60,6 +60,19 @@ def loop : PState → List Nat → Except FnErr PState
     | .ok st' => loop st' rest
     | .error e => .error e
 
+/-- The 0x05 substitution of the FAT specification, on the way to the medium: after the loop of
+`create_from_str`, `if sfn.contents[0] == 0xE5 { sfn.contents[0] = 0x05; }` — a first byte 0xE5
+would read as the deleted-entry marker. -/
+def kanjiStore : Bytes → Bytes
+  | [] => []
+  | b :: rest => (if b.toNat = 0xE5 then UInt8.ofNat 0x05 else b) :: rest
+
+/-- The same substitution on the way back, in `Display`: byte 0 is printed as 0xE5 when it is 0x05
+(`let c = if i == 0 && c == 0x05 { 0xE5 } else { c };` at the top of the loop body). -/
+def kanjiShow : Bytes → Bytes
+  | [] => []
+  | b :: rest => (if b.toNat = 0x05 then UInt8.ofNat 0xE5 else b) :: rest
+
 /-- `ShortFileName::create_from_str`. -/
 def createFromStr (name : List Nat) : Except FnErr Bytes :=
   if name = [0x2E, 0x2E] then .ok parentDir
@@ -67,9 +80,10 @@ def createFromStr (name : List Nat) : Except FnErr Bytes :=
   else
     match loop { contents := List.replicate TOTAL_LEN (UInt8.ofNat 32), idx := 0, seenDot := false } name with
     | .error e => .error e
-    | .ok st => if st.idx = 0 then .error .FilenameEmpty else .ok st.contents
+    | .ok st => if st.idx = 0 then .error .FilenameEmpty else .ok (kanjiStore st.contents)
 
-/-- `impl Display for ShortFileName` (without width padding): the printed code points. -/
+/-- `impl Display for ShortFileName` (without width padding): the printed code points of the bytes
+as they are; `display` applies the 0x05 → 0xE5 substitution to byte 0 first. -/
 def displayAux : Nat → Bytes → List Nat
   | _, [] => []
   | i, c :: rest =>
@@ -77,7 +91,7 @@ def displayAux : Nat → Bytes → List Nat
       (if i = BASE_LEN then [0x2E, c.toNat] else [c.toNat]) ++ displayAux (i + 1) rest
     else displayAux (i + 1) rest
 
-def display (contents : Bytes) : List Nat := displayAux 0 contents
+def display (contents : Bytes) : List Nat := displayAux 0 (kanjiShow contents)
 
 /-- `ShortFileName::csum`: `result.rotate_right(1).wrapping_add(b)` over the 11 bytes. -/
 def csum (contents : Bytes) : Nat :=
